@@ -123,7 +123,8 @@ def main(run):
     rnd = random.Random(run.shard_seed)
     thorough = run.tier == "thorough"
 
-    def one_case(kind, strategy, d, m, n, spec, cont, scripted, subsets=None):
+    def one_case(kind, strategy, d, m, n0, spec, cont, scripted, subsets=None):
+        n = n0
         names = make_names(rnd.choice(["str", "int", "float"]), d)
         clock = Clock()
         model = Models(rnd.choice(["scalar", "multi", "grow", "positional"]), names, exact=False, clock=clock)
@@ -157,6 +158,7 @@ def main(run):
                 subsets = [(), tuple(names)] + rnd.sample(subsets, 14)
         for si, sub in enumerate(subsets):
             x = x_small if si % 3 == 2 else x_full      # the same imputer object serves instances with different key sets
+            n = [n0, 1, n0 + 2, 2, 1][si % 5] if not scripted else n0     # ... and varying (also decreasing) n_samples
             ids0, rows0, ys0 = snap_storage(st)
             x0 = dict(x)
             container = as_container(cont, sub)
